@@ -184,12 +184,19 @@ class Check(CheckBase):
                 helpers.append(fn)
         lines = {name: io_lines(fn) for name, fn in methods.items()}
         helper_targets = [(fn.__code__, ln) for fn in helpers for ln in io_lines(fn)]
+        # the directory walkers the listing is built on (replicat.utils.fs), whatever they are called
+        import replicat.utils.fs as _fs
+        walkers = [fn for fn in vars(_fs).values() if inspect.isfunction(fn) and fn.__module__ == _fs.__name__]
+        walker_targets = [(fn.__code__, ln) for fn in walkers for ln in io_lines(fn)]
         mon = sys.monitoring
-        state = {'target': None, 'left': 0, 'fired': 0, 'exc': OSError, 'errno': 5}
+        state = {'target': None, 'left': 0, 'fired': 0, 'exc': OSError, 'errno': 5, 'skip': 0}
 
         def on_line(code, line):
             t = state['target']
             if t is not None and code is t[0] and line == t[1] and (state['left'] is None or state['left'] > 0):
+                if state['skip'] > 0:
+                    state['skip'] -= 1
+                    return
                 if state['left'] is not None:
                     state['left'] -= 1
                 state['fired'] += 1
@@ -198,7 +205,7 @@ class Check(CheckBase):
             mon.free_tool_id(TOOL)
         mon.use_tool_id(TOOL, 'vf-failpoints')
         mon.register_callback(TOOL, mon.events.LINE, on_line)
-        codes = [fn.__code__ for fn in methods.values()] + [fn.__code__ for fn in helpers]
+        codes = [fn.__code__ for fn in methods.values()] + [fn.__code__ for fn in helpers] + [fn.__code__ for fn in walkers]
         for c in codes:
             mon.set_local_events(TOOL, c, mon.events.LINE)
 
@@ -218,12 +225,19 @@ class Check(CheckBase):
                                'exists', 'list_files'])
                 count = r.choice(TRANSIENT_COUNTS + (None,))
                 mode = r.choice(['line', 'stream']) if op in ('upload_stream', 'download_stream') else 'line'
+                live = {name}
+                if op == 'list_files':
+                    for extra in ('d/e/obj2', 'd/f/x', 'k/1', 'k/2', 'top'):
+                        be.upload(extra, b'x')
+                        live.add(extra)
                 stream = None
                 if mode == 'line':
                     fn = methods[op]
                     cand = [(fn.__code__, ln) for ln in lines[op]]
                     if op in ('upload', 'upload_stream'):
                         cand += helper_targets
+                    if op == 'list_files':
+                        cand += walker_targets
                     if not cand:
                         continue
                     target = r.choice(cand)
@@ -232,7 +246,10 @@ class Check(CheckBase):
                     exc, eno = OSError, 5
                     if op in ('upload', 'upload_stream') and count is not None and r.random() < 0.4:
                         exc, eno = r.choice([(PermissionError, 13), (FileNotFoundError, 2), (BlockingIOError, 11), (InterruptedError, 4)])
-                    state.update(target=target, left=count, fired=0, exc=exc, errno=eno)
+                    if op == 'list_files' and r.random() < 0.5:
+                        exc, eno = r.choice([(OSError, 24), (PermissionError, 13), (OSError, 116)])       # EMFILE, EACCES, ESTALE
+                    state.update(target=target, left=count, fired=0, exc=exc, errno=eno,
+                                 skip=r.choice([0, 0, 1, 2, 3]) if op == 'list_files' else 0)
                     pos = 'inside' if op in ('upload_stream', 'download_stream', 'upload', 'download') else 'call'
                     label = f'line:{target[0].co_name}' + ('' if exc is OSError else f'[{exc.__name__}]')
                 else:
@@ -273,7 +290,7 @@ class Check(CheckBase):
                 counters['max_attempts_local'] = max(counters.get('max_attempts_local', 0), fired)
                 on_disk = {os.path.relpath(os.path.join(dp, f), repo): open(os.path.join(dp, f), 'rb').read()
                            for dp, _, fs in os.walk(repo) for f in fs}
-                temps = [n for n in on_disk if n != name]           # anything but the object itself is a leftover
+                temps = [n for n in on_disk if n not in live]           # anything but the objects themselves is a leftover
                 w = {'op': op, 'fault': label, 'count': count, 'fired': fired, 'sizes': (len(old), len(new)), 'chunk': c,
                      'error': repr(err)[:200]}
                 if fired == 0:
@@ -281,9 +298,19 @@ class Check(CheckBase):
                     continue
                 if temps:
                     viol(f'a temporary file is left behind after {op} with {label} x{count}', temps=temps[:2], **w)
-                if count is not None and op == 'list_files':
-                    # Local.list_files is a generator: the retry decorator covers its creation only, and the property's
-                    # masking clause is about uploads and downloads.  Only termination is judged for it.
+                if op == 'list_files':
+                    # The masking clause is about uploads and downloads, so a listing may give up with an error; what it may
+                    # not do is swallow the I/O error and return normally with something that is not the listing.
+                    counters['listings_under_io_error'] = counters.get('listings_under_io_error', 0) + 1
+                    if outcome == 'returned' and sorted(result) != sorted(live):
+                        viol(f'list_files hit an I/O error ({label}, errno {state["errno"]}) and returned normally with '
+                             f'{len(result)} name(s) of {len(live)}: the error is reported as a (partly) empty or repeated listing',
+                             listed=sorted(result)[:8], **w)
+                    elif outcome == 'recursion':
+                        viol('list_files under an I/O error ended in RecursionError', **w)
+                    if fired > ATTEMPT_BOUND['local']:
+                        viol(f'list_files under a persistent fault made {fired} attempts', **w)
+                    shutil.rmtree(repo, ignore_errors=True)
                     continue
                 if count is not None:
                     if outcome != 'returned':
@@ -302,7 +329,7 @@ class Check(CheckBase):
                     if op == 'exists' and result is not True:
                         viol('exists after transient faults returned a wrong answer', **w)
                 else:
-                    if outcome == 'returned' and op != 'list_files':
+                    if outcome == 'returned':
                         viol(f'{op} returned normally although {label} fails for good', **w)
                     elif outcome == 'recursion':
                         viol(f'{op} under a persistent fault ended in RecursionError', **w)
@@ -359,7 +386,7 @@ class Check(CheckBase):
             op = r.choice(['upload', 'upload_stream', 'upload_stream', 'download', 'download_stream', 'download_stream', 'delete',
                            'exists', 'list_files'])
             count = r.choice(TRANSIENT_COUNTS + (None,))
-            fkind = r.choice(['connect', 'status', 'status', 'drop-request', 'drop-response', 'status-429', 'expired-token'])
+            fkind = r.choice(['connect', 'status', 'status', 'drop-request', 'drop-response', 'status-429', 'expired-token', 'refused'])
             target_op = self.OPS_OF[kind][op]
             if kind == 'b2' and r.random() < 0.25:
                 target_op = r.choice(self.B2_AUX if op in ('upload', 'upload_stream') else self.B2_AUX[1:])
@@ -369,6 +396,14 @@ class Check(CheckBase):
             pos = 'call'
             if fkind == 'status':
                 fault['status'] = r.choice([500, 503, 408])
+            elif fkind == 'refused':
+                # the service rejects the request for a reason of its own (malformed, forbidden): not a transient fault, so it
+                # need not be masked - but it is a failure, and must never be reported as the operation having succeeded
+                st = r.choice([400, 403])
+                body = (b'{"status": %d, "code": "%s", "message": "vf"}' % (st, b'bad_request' if st == 400 else b'access_denied')
+                        if kind == 'b2' else
+                        b'<?xml version="1.0"?><Error><Code>%s</Code><Message>vf</Message></Error>' % (b'InvalidRequest' if st == 400 else b'AccessDenied'))
+                fault.update(kind='status', status=st, body=body)
             elif fkind == 'status-429':
                 fault.update(kind='status', status=429, headers={'retry-after': str(r.choice([0, 1, 3]))})
             elif fkind == 'drop-request':
@@ -449,7 +484,11 @@ class Check(CheckBase):
             if outcome == 'timeout':
                 viol(f'{op} did not finish under {fkind} x{count}', **w)
             elif count is not None:
-                if outcome != 'returned':
+                if fkind == 'refused' and outcome == 'raised':
+                    counters['refusals_reported_as_errors'] = counters.get('refusals_reported_as_errors', 0) + 1
+                    if op in ('upload', 'upload_stream') and state.get(name) not in (old, new):
+                        viol(f'after a refused {kind} {op} the object is neither the old nor the new one', **w)
+                elif outcome != 'returned':
                     viol(f'{kind} {op}: {count} consecutive transient fault(s) ({fkind} on {target_op}) were not masked: '
                          f'{type(err).__name__}: {str(err)[:100]}', **w)
                 else:
